@@ -4,104 +4,176 @@ package eviction
 
 // Machine-checked contracts for the gowp verifier (/verif). This file is comment-only and is
 // compiled only under the build tag "verif"; it declares nothing.
+//
+// Both caches are binary heaps driven by container/heap. container/heap itself is outside the proof; the
+// verifier models heap.Init/Push/Pop/Fix/Remove by the assumed contract "only the heap.Interface methods are
+// called, with in-range indices": Push/Pop/Swap are applied through their contracts below, and the sift-up /
+// sift-down phases are an arbitrary sequence of Swap calls on indices below the ghost bound $hi. Clauses
+// labelled seq-* are relations between pre- and post-state that are reflexive and transitive, so they hold
+// for every such sequence; each is proved for a single Swap here.
+
+//@ ghost $hi Int
 
 // ---- CacheLRU ----------------------------------------------------------------------------------
 
 //@ type CacheLRU
+//@   invariant alloc: this.keys != nil
 //@   invariant wf: forall i int :: 0 <= i && i < len(this.entries) ==> this.entries[i] != nil && this.entries[i].index == i
 //@   invariant keyed: forall i int :: 0 <= i && i < len(this.entries) ==> has(this.keys, this.entries[i].key)
+//@   invariant backed: forall k string :: has(this.keys, k) ==> (exists i int :: 0 <= i && i < len(this.entries) && this.entries[i].key == k)
 //@   invariant uniq: forall i int, j int :: 0 <= i && i < j && j < len(this.entries) ==> this.entries[i].key != this.entries[j].key
 
-//@ func (*CacheLRU).Len props C08
+//@ func NewCacheLRU props C08
+//@   ensures isfresh: fresh(result) && fresh(result.keys) && len(result.entries) == 0 && result.Mutex != nil && fresh(result.Mutex)
+//@   ensures wf: inv(result, alloc) && inv(result, wf) && inv(result, keyed) && inv(result, backed) && inv(result, uniq)
+//@   ensures nokeys: forall k string :: !has(result.keys, k)
+//@   modifies nothing
+
+//@ func (*CacheLRU).Len noalloc props C08
 //@   ensures result == len(cache.entries)
 //@   modifies nothing
 
-//@ func (*CacheLRU).Less props C08
+//@ func (*CacheLRU).Swap noalloc props C08
+//@   requires 0 <= i && i < len(cache.entries) && 0 <= j && j < len(cache.entries)
+//@   preserves wf, keyed, backed, uniq
+//@   ensures swapped: cache.entries[i] == old(cache.entries[j]) && cache.entries[j] == old(cache.entries[i])
+//@   ensures others: forall k int :: 0 <= k && k < len(cache.entries) && k != i && k != j ==> cache.entries[k] == old(cache.entries[k])
+//@   ensures samelen: cache.entries == old(cache.entries)
+//@   ensures seq-perm: forall e *EntryLRU :: (exists a int :: 0 <= a && a < len(cache.entries) && cache.entries[a] == e) <==> (exists b int :: 0 <= b && b < len(cache.entries) && old(cache.entries[b]) == e)
+//@   ensures seq-frame: forall e *EntryLRU :: !(exists b int :: 0 <= b && b < len(cache.entries) && old(cache.entries[b]) == e) ==> e.index == old(e.index)
+//@   ensures seq-above: (i < $hi && j < $hi) ==> (forall a int :: $hi <= a && a < len(cache.entries) ==> cache.entries[a] == old(cache.entries[a]))
+//@   modifies cache.entries[*], EntryLRU.index
+
+//@ func (*CacheLRU).Push props C08
+//@   requires isstr(key) && !has(cache.keys, asstr(key))
+//@   preserves alloc, wf, keyed, backed, uniq
+//@   ensures grown: len(cache.entries) == old(len(cache.entries)) + 1
+//@   ensures last: cache.entries[len(cache.entries)-1].key == asstr(key)
+//@   ensures prefix: forall k int :: 0 <= k && k < old(len(cache.entries)) ==> cache.entries[k] == old(cache.entries[k])
+//@   ensures keysadded: forall k string :: has(cache.keys, k) <==> (old(has(cache.keys, k)) || k == asstr(key))
+//@   ensures newentry: fresh(cache.entries[len(cache.entries)-1])
+//@   ensures backing: samearr(cache.entries, old(cache.entries)) || fresh(cache.entries)
+//@   modifies cache.entries, cache.entries[*], cache.keys[*]
+
+//@ func (*CacheLRU).Pop noalloc props C08
+//@   requires len(cache.entries) > 0
+//@   preserves alloc, wf, keyed, backed, uniq
+//@   ensures shrunk: len(cache.entries) == old(len(cache.entries)) - 1 && samearr(cache.entries, old(cache.entries))
+//@   ensures popped: result == boxed(old(cache.entries[len(cache.entries)-1].key))
+//@   ensures unkeyed: forall k string :: has(cache.keys, k) <==> (old(has(cache.keys, k)) && k != asstr(result))
+//@   ensures prefix: forall k int :: 0 <= k && k < len(cache.entries) ==> cache.entries[k] == old(cache.entries[k])
+//@   modifies cache.entries, cache.entries[*], cache.keys[*], EntryLRU.index
+
+//@ func (*CacheLRU).Flush noalloc props C08,C20
+//@   ensures emptied: len(cache.entries) == 0
+//@   ensures nokeys: forall k string :: !has(cache.keys, k)
+//@   modifies cache.entries, cache.entries[*], cache.keys[*]
+
+//@ func (*CacheLRU).contains noalloc props C08
+//@   ensures result == has(cache.keys, key)
+//@   modifies nothing
+
+//@ func (*CacheLRU).Update props C08
+//@   preserves alloc, wf, keyed, backed, uniq
+//@   ensures tracked: has(cache.keys, key)
+//@   ensures otherkeys: forall k string :: k != key ==> (has(cache.keys, k) <==> old(has(cache.keys, k)))
+//@   modifies cache.entries, cache.entries[*], cache.keys[*], EntryLRU.index, EntryLRU.unixTime
+
+//@ func (*CacheLRU).Delete props C08
+//@   preserves alloc, wf, keyed, backed, uniq
+//@   ensures gone: !has(cache.keys, key)
+//@   ensures otherkeys: forall k string :: k != key ==> (has(cache.keys, k) <==> old(has(cache.keys, k)))
+//@   modifies cache.entries, cache.entries[*], cache.keys[*], EntryLRU.index
+
+// least recently used first: the heap's minimum must be the entry with the oldest access time
+//@ func (*CacheLRU).Less noalloc props C08
 //@   requires 0 <= i && i < len(cache.entries) && 0 <= j && j < len(cache.entries)
 //@   requires cache.entries[i] != nil && cache.entries[j] != nil
 //@   ensures lru-order: result == (cache.entries[i].unixTime < cache.entries[j].unixTime)
 //@   modifies nothing
 
-//@ func (*CacheLRU).Swap props C08
+// ---- CacheLFU ----------------------------------------------------------------------------------
+
+//@ type CacheLFU
+//@   invariant alloc: this.keys != nil
+//@   invariant wf: forall i int :: 0 <= i && i < len(this.entries) ==> this.entries[i] != nil && this.entries[i].index == i
+//@   invariant keyed: forall i int :: 0 <= i && i < len(this.entries) ==> has(this.keys, this.entries[i].key)
+//@   invariant backed: forall k string :: has(this.keys, k) ==> (exists i int :: 0 <= i && i < len(this.entries) && this.entries[i].key == k)
+//@   invariant uniq: forall i int, j int :: 0 <= i && i < j && j < len(this.entries) ==> this.entries[i].key != this.entries[j].key
+
+//@ func NewCacheLFU props C08
+//@   ensures isfresh: fresh(result) && fresh(result.keys) && len(result.entries) == 0 && result.Mutex != nil && fresh(result.Mutex)
+//@   ensures wf: inv(result, alloc) && inv(result, wf) && inv(result, keyed) && inv(result, backed) && inv(result, uniq)
+//@   ensures nokeys: forall k string :: !has(result.keys, k)
+//@   modifies nothing
+
+//@ func (*CacheLFU).Len noalloc props C08
+//@   ensures result == len(cache.entries)
+//@   modifies nothing
+
+//@ func (*CacheLFU).Swap noalloc props C08
 //@   requires 0 <= i && i < len(cache.entries) && 0 <= j && j < len(cache.entries)
-//@   preserves wf
+//@   preserves wf, keyed, backed, uniq
 //@   ensures swapped: cache.entries[i] == old(cache.entries[j]) && cache.entries[j] == old(cache.entries[i])
 //@   ensures others: forall k int :: 0 <= k && k < len(cache.entries) && k != i && k != j ==> cache.entries[k] == old(cache.entries[k])
 //@   ensures samelen: cache.entries == old(cache.entries)
-//@   modifies cache.entries[*], EntryLRU.index
+//@   ensures seq-perm: forall e *EntryLFU :: (exists a int :: 0 <= a && a < len(cache.entries) && cache.entries[a] == e) <==> (exists b int :: 0 <= b && b < len(cache.entries) && old(cache.entries[b]) == e)
+//@   ensures seq-frame: forall e *EntryLFU :: !(exists b int :: 0 <= b && b < len(cache.entries) && old(cache.entries[b]) == e) ==> e.index == old(e.index)
+//@   ensures seq-above: (i < $hi && j < $hi) ==> (forall a int :: $hi <= a && a < len(cache.entries) ==> cache.entries[a] == old(cache.entries[a]))
+//@   modifies cache.entries[*], EntryLFU.index
 
-//@ func (*CacheLRU).Push props C08
-//@   requires isstr(key)
-//@   preserves wf, keyed
+//@ func (*CacheLFU).Push props C08
+//@   requires isstr(key) && !has(cache.keys, asstr(key))
+//@   preserves alloc, wf, keyed, backed, uniq
 //@   ensures grown: len(cache.entries) == old(len(cache.entries)) + 1
-//@   ensures last: cache.entries[len(cache.entries)-1].key == asstr(key)
+//@   ensures last: cache.entries[len(cache.entries)-1].key == asstr(key) && cache.entries[len(cache.entries)-1].count == 1
 //@   ensures prefix: forall k int :: 0 <= k && k < old(len(cache.entries)) ==> cache.entries[k] == old(cache.entries[k])
+//@   ensures keysadded: forall k string :: has(cache.keys, k) <==> (old(has(cache.keys, k)) || k == asstr(key))
+//@   ensures newentry: fresh(cache.entries[len(cache.entries)-1])
+//@   ensures backing: samearr(cache.entries, old(cache.entries)) || fresh(cache.entries)
 //@   modifies cache.entries, cache.entries[*], cache.keys[*]
 
-//@ func (*CacheLRU).Pop props C08
+//@ func (*CacheLFU).Pop noalloc props C08
 //@   requires len(cache.entries) > 0
-//@   preserves wf
-//@   ensures shrunk: len(cache.entries) == old(len(cache.entries)) - 1
+//@   preserves alloc, wf, keyed, backed, uniq
+//@   ensures shrunk: len(cache.entries) == old(len(cache.entries)) - 1 && samearr(cache.entries, old(cache.entries))
 //@   ensures popped: result == boxed(old(cache.entries[len(cache.entries)-1].key))
-//@   ensures unkeyed: !has(cache.keys, asstr(result))
+//@   ensures unkeyed: forall k string :: has(cache.keys, k) <==> (old(has(cache.keys, k)) && k != asstr(result))
 //@   ensures prefix: forall k int :: 0 <= k && k < len(cache.entries) ==> cache.entries[k] == old(cache.entries[k])
-//@   modifies cache.entries, cache.entries[*], cache.keys[*], EntryLRU.index
+//@   modifies cache.entries, cache.entries[*], cache.keys[*], EntryLFU.index
 
-//@ func (*CacheLRU).Flush props C08,C20
+//@ func (*CacheLFU).Flush noalloc props C08,C20
 //@   ensures emptied: len(cache.entries) == 0
 //@   ensures nokeys: forall k string :: !has(cache.keys, k)
 //@   modifies cache.entries, cache.entries[*], cache.keys[*]
 
-//@ func (*CacheLRU).contains props C08
+//@ func (*CacheLFU).contains noalloc props C08
 //@   ensures result == has(cache.keys, key)
 //@   modifies nothing
 
-// ---- CacheLFU ----------------------------------------------------------------------------------
+//@ func (*CacheLFU).Update props C08
+//@   preserves alloc, wf, keyed, backed, uniq
+//@   ensures tracked: has(cache.keys, key)
+//@   ensures otherkeys: forall k string :: k != key ==> (has(cache.keys, k) <==> old(has(cache.keys, k)))
+//@   modifies cache.entries, cache.entries[*], cache.keys[*], EntryLFU.index, EntryLFU.count
 
-//@ type CacheLFU
-//@   invariant wf: forall i int :: 0 <= i && i < len(this.entries) ==> this.entries[i] != nil && this.entries[i].index == i
-//@   invariant keyed: forall i int :: 0 <= i && i < len(this.entries) ==> has(this.keys, this.entries[i].key)
+//@ func (*CacheLFU).Delete props C08
+//@   preserves alloc, wf, keyed, backed, uniq
+//@   ensures gone: !has(cache.keys, key)
+//@   ensures otherkeys: forall k string :: k != key ==> (has(cache.keys, k) <==> old(has(cache.keys, k)))
+//@   modifies cache.entries, cache.entries[*], cache.keys[*], EntryLFU.index
 
-//@ func (*CacheLFU).Len props C08
-//@   ensures result == len(cache.entries)
-//@   modifies nothing
-
-//@ func (*CacheLFU).Less props C08
+// least frequently used first: a strictly smaller access count always sorts first
+//@ func (*CacheLFU).Less noalloc props C08
 //@   requires 0 <= i && i < len(cache.entries) && 0 <= j && j < len(cache.entries)
 //@   requires cache.entries[i] != nil && cache.entries[j] != nil
 //@   ensures lfu-order: cache.entries[i].count != cache.entries[j].count ==> result == (cache.entries[i].count < cache.entries[j].count)
 //@   modifies nothing
 
-//@ func (*CacheLFU).Swap props C08
-//@   requires 0 <= i && i < len(cache.entries) && 0 <= j && j < len(cache.entries)
+//@ func (*CacheLRU).GetTime props C08
 //@   preserves wf
-//@   ensures swapped: cache.entries[i] == old(cache.entries[j]) && cache.entries[j] == old(cache.entries[i])
-//@   ensures others: forall k int :: 0 <= k && k < len(cache.entries) && k != i && k != j ==> cache.entries[k] == old(cache.entries[k])
-//@   ensures samelen: cache.entries == old(cache.entries)
-//@   modifies cache.entries[*], EntryLFU.index
+//@   modifies nothing
 
-//@ func (*CacheLFU).Push props C08
-//@   requires isstr(key)
-//@   preserves wf, keyed
-//@   ensures grown: len(cache.entries) == old(len(cache.entries)) + 1
-//@   ensures last: cache.entries[len(cache.entries)-1].key == asstr(key) && cache.entries[len(cache.entries)-1].count == 1
-//@   ensures prefix: forall k int :: 0 <= k && k < old(len(cache.entries)) ==> cache.entries[k] == old(cache.entries[k])
-//@   modifies cache.entries, cache.entries[*], cache.keys[*]
-
-//@ func (*CacheLFU).Pop props C08
-//@   requires len(cache.entries) > 0
+//@ func (*CacheLFU).GetCount props C08
 //@   preserves wf
-//@   ensures shrunk: len(cache.entries) == old(len(cache.entries)) - 1
-//@   ensures popped: result == boxed(old(cache.entries[len(cache.entries)-1].key))
-//@   ensures unkeyed: !has(cache.keys, asstr(result))
-//@   ensures prefix: forall k int :: 0 <= k && k < len(cache.entries) ==> cache.entries[k] == old(cache.entries[k])
-//@   modifies cache.entries, cache.entries[*], cache.keys[*], EntryLFU.index
-
-//@ func (*CacheLFU).Flush props C08,C20
-//@   ensures emptied: len(cache.entries) == 0
-//@   ensures nokeys: forall k string :: !has(cache.keys, k)
-//@   modifies cache.entries, cache.entries[*], cache.keys[*]
-
-//@ func (*CacheLFU).contains props C08
-//@   ensures result == has(cache.keys, key)
 //@   modifies nothing
